@@ -1249,7 +1249,10 @@ impl<SE: extensions::ShellExtensions> ExecuteInPipeline<SE> for ast::SimpleComma
                 CommandPrefixOrSuffixItem::IoRedirect(redirect) => {
                     if let Err(e) = setup_redirect(&mut context.shell, &mut params, redirect).await
                     {
-                        writeln!(params.stderr(&context.shell), "error: {e}")?;
+                        // The command has failed either way; being unable to report it (e.g.
+                        // stderr was just redirected to an unwritable descriptor) must not
+                        // turn the failure into a fatal error.
+                        let _ = writeln!(params.stderr(&context.shell), "error: {e}");
                         return Ok(ExecutionResult::general_error().into());
                     }
                 }
